@@ -242,6 +242,36 @@ def rule_first_engine_call(ctx):
     ctx.floor("C07.f first engine calls", n, 6)
 
 
+def rule_engine_consulted(ctx):
+    """C07.j: no execute() succeeds without consulting the engine: on every path on which execute() returns normally — parsed
+    statements, statements answered by a status message, statements matching nop_regexes — the engine handle was called at least
+    once (a closed connection makes that call raise, which is what turns 'any use of a closed connection' into 250002/08003)."""
+    from ..values import Lst
+    prog = ctx.prog
+    fn = prog.fn("cursor", "FakeSnowflakeCursor.execute")
+    loc = prog.mod("cursor").loc(fn)
+    n = 0
+    scenarios = [(k, None, None) for k in ("SELECT", "INSERT", "USE DATABASE", "COMMENT ON TABLE", "CREATE USER", "SET variable")]
+    scenarios += [("SELECT", Lst([Const("^SELECT")]), True), ("INSERT", Lst([Const("^INSERT")]), True), ("SELECT", Lst([Const("^CALL")]), False)]
+    for kind, nops, match in scenarios:
+        try:
+            trs = run_execute(prog, kind, None, nop_regexes=nops, nop_match=match)
+        except KeyError:
+            continue
+        for tr in trs:
+            if tr.path.outcome != "return":
+                continue
+            n += 1
+            what = f"{kind}{' matching nop_regexes' if match else ''}"
+            ok = bool(tr.hooks.calls)
+            ctx.ob("C07.j", f"{what}: a successful execute() called the engine", ok, loc, f"{len(tr.hooks.calls)} engine calls")
+            if not ok:
+                ctx.violation("C07.j", "cursor", "FakeSnowflakeCursor.execute", f"{what}: execute() succeeds without an engine call", loc,
+                              f"execute() of a {what} statement returns successfully without calling the engine handle: on a closed "
+                              f"connection the statement succeeds instead of raising DatabaseError 250002/08003")
+    ctx.floor("C07.j successful execute paths", n, 8)
+
+
 from .c13 import rule_no_implicit_tx_calls  # noqa: E402  (a failed statement must leave an open transaction as it was)
 
 RULES = [
@@ -254,4 +284,5 @@ RULES = [
     ("C07.i", rule_reference_checked, ("quick", "thorough")),
     ("C07.e", rule_undefined_variable, ("quick", "thorough")),
     ("C07.f", rule_first_engine_call, ("quick", "thorough")),
+    ("C07.j", rule_engine_consulted, ("quick", "thorough")),
 ]
